@@ -193,6 +193,8 @@ def const_int(e: ast.AST) -> Optional[int]:
 #   ('cond', test_ast, then, else, info)
 #   ('missing_w', info)             the writer's missing-byte loop, info: dict(n=ast, step=int|None, chunk=int|None, shift=ast, subject=ast, idx=ast, node=ast, init=ast)
 #   ('raise',)                      the converter unconditionally raises (unsupported type)
+#   ('packed', info)                reader: a composite stream operation that unpacks `count` consecutive values of ONE struct code (summarised
+#                                   from the stream class by packed_read_summary); info: dict(count=ast, code=ast, order=str, op=name, node=ast, bind=name|None)
 
 WRITE_KINDS = {'write_int32': 'i32', 'write_int64': 'i64', 'write_float32': 'f32', 'write_float64': 'f64', 'write_bool': 'bool', 'write_byte': 'byte'}
 READ_KINDS = {'read_int32': 'i32', 'read_int64': 'i64', 'read_float32': 'f32', 'read_float64': 'f64', 'read_bool': 'bool'}
@@ -217,6 +219,177 @@ def _only_raise(stmts: Sequence[ast.stmt]) -> bool:
 def _only_raises(fn: pf.FuncDef) -> bool:
     b = body_wo_doc(fn)
     return len(b) == 1 and isinstance(b[0], ast.Raise)
+
+
+_PACKED_CACHE: Dict[tuple, Optional[dict]] = {}
+
+
+def reader_cursor_attrs(c: ast.ClassDef) -> Optional[Tuple[str, str]]:
+    """(buffer attribute, offset attribute) of the reader class, taken from read_bytes_view: `self.<buf>[self.<off> : self.<off> + n]`, `self.<off> += n`."""
+    fn = methods(c).get('read_bytes_view')
+    if fn is None:
+        return None
+    ps = param_names(fn)
+    if len(ps) != 2:
+        return None
+    sls = [x for x in ast.walk(fn) if isinstance(x, ast.Subscript) and isinstance(x.slice, ast.Slice)]
+    incs = [x for x in ast.walk(fn) if isinstance(x, ast.AugAssign)]
+    if len(sls) != 1 or len(incs) != 1:
+        return None
+    sl = sls[0]
+    if not (isinstance(sl.value, ast.Attribute) and isinstance(sl.value.value, ast.Name) and sl.value.value.id == ps[0] and isinstance(sl.slice.lower, ast.Attribute)
+            and isinstance(sl.slice.lower.value, ast.Name) and sl.slice.lower.value.id == ps[0] and pf.nsrc(incs[0].target) == pf.nsrc(sl.slice.lower)):
+        return None
+    return sl.value.attr, sl.slice.lower.attr
+
+
+def packed_read_summary(m: pf.Module, op: str) -> Optional[dict]:
+    """Summary of a composite READER operation `op` of the stream class that unpacks `count` consecutive values of one struct code:
+    dict(order=<struct order character>, count=<parameter name>, code=<parameter name>, params=[names after self], line=int), or None when `op`
+    is not such an operation.  Decided by a straight-line symbolic evaluation of the method body: a format string <order><count><code> built from
+    two parameters, unpacked (struct.Struct(F).unpack_from / struct.unpack_from / struct.unpack of the slice [off : off + size(F)]) from the reader's
+    buffer at its current offset, the offset advanced once by exactly size(F) (S.size / struct.calcsize(F)), the unpacked tuple returned."""
+    key = (id(m), op)
+    if key in _PACKED_CACHE:
+        return _PACKED_CACHE[key]
+    _PACKED_CACHE[key] = None
+    c = stream_class(m, 'r')
+    if c is None or op not in methods(c) or op in PRIMITIVE_STREAM_OPS:
+        return None
+    fn = methods(c)[op]
+    cur = reader_cursor_attrs(c)
+    if cur is None or pf.decorator_names(fn) or fn.args.vararg or fn.args.kwarg or fn.args.kwonlyargs:
+        return None
+    buf_attr, off_attr = cur
+    ps = param_names(fn)
+    if len(ps) < 3:
+        return None
+    selfname, params = ps[0], ps[1:]
+    env: Dict[str, tuple] = {p_: ('param', p_) for p_ in params}
+    state = {'read': None, 'advanced': None, 'ret': None}
+
+    def is_self_attr(e: ast.AST, a: str) -> bool:
+        return isinstance(e, ast.Attribute) and e.attr == a and isinstance(e.value, ast.Name) and e.value.id == selfname
+
+    def fmt_of(parts: List[Any]) -> Optional[tuple]:
+        # parts: str constants / ('param', p) in order
+        if len(parts) == 3 and isinstance(parts[0], str) and len(parts[0]) == 1 and parts[0] in '=<>!@' and all(isinstance(x, tuple) and x[0] == 'param' for x in parts[1:]):
+            return ('fmt', parts[0], parts[1][1], parts[2][1])
+        return None
+
+    def ev(e: ast.AST) -> Optional[tuple]:
+        if isinstance(e, ast.Name):
+            return env.get(e.id)
+        if isinstance(e, ast.JoinedStr):
+            parts: List[Any] = []
+            for v in e.values:
+                if isinstance(v, ast.Constant) and isinstance(v.value, str):
+                    parts.append(v.value)
+                elif isinstance(v, ast.FormattedValue) and v.format_spec is None and v.conversion in (-1, 115) and isinstance(v.value, ast.Name):
+                    parts.append(env.get(v.value.id))
+                else:
+                    return None
+            return fmt_of(parts)
+        if isinstance(e, ast.BinOp) and isinstance(e.op, ast.Add):
+            flat: List[ast.AST] = []
+
+            def fl(x: ast.AST) -> None:
+                if isinstance(x, ast.BinOp) and isinstance(x.op, ast.Add):
+                    fl(x.left)
+                    fl(x.right)
+                else:
+                    flat.append(x)
+            fl(e)
+            parts = []
+            for x in flat:
+                if isinstance(x, ast.Constant) and isinstance(x.value, str):
+                    parts.append(x.value)
+                elif isinstance(x, ast.Call) and pf.dotted(x.func) == 'str' and len(x.args) == 1 and isinstance(x.args[0], ast.Name):
+                    parts.append(env.get(x.args[0].id))
+                elif isinstance(x, ast.Name):
+                    parts.append(env.get(x.id))
+                else:
+                    return None
+            return fmt_of(parts)
+        if isinstance(e, ast.Attribute):
+            if is_self_attr(e, buf_attr):
+                return ('buf',)
+            if is_self_attr(e, off_attr):
+                return ('off',)
+            b = ev(e.value)
+            if b is not None and b[0] == 'structobj' and e.attr == 'size':
+                return ('size', b[1])
+            return None
+        if isinstance(e, ast.Call):
+            d = pf.dotted(e.func)
+            args = [ev(a) for a in e.args]
+            kw = {k.arg: ev(k.value) for k in e.keywords}
+            if d == 'struct.Struct' and len(args) == 1 and not kw and args[0] is not None and args[0][0] == 'fmt':
+                return ('structobj', args[0])
+            if d == 'struct.calcsize' and len(args) == 1 and not kw and args[0] is not None and args[0][0] == 'fmt':
+                return ('size', args[0])
+            if d in ('tuple', 'list') and len(args) == 1 and not kw and args[0] is not None and args[0][0] == 'unpacked':
+                return args[0]
+            f_: Optional[tuple] = None
+            rest: List[Optional[tuple]] = []
+            if d == 'struct.unpack_from' and args and args[0] is not None and args[0][0] == 'fmt':
+                f_, rest, how = args[0], args[1:], 'from'
+            elif d == 'struct.unpack' and args and args[0] is not None and args[0][0] == 'fmt':
+                f_, rest, how = args[0], args[1:], 'slice'
+            elif isinstance(e.func, ast.Attribute) and e.func.attr in ('unpack_from', 'unpack'):
+                so = ev(e.func.value)
+                if so is not None and so[0] == 'structobj':
+                    f_, rest, how = so[1], args, ('from' if e.func.attr == 'unpack_from' else 'slice')
+            if f_ is not None:
+                if how == 'from':
+                    off = rest[1] if len(rest) > 1 else kw.get('offset')
+                    if len(rest) >= 1 and rest[0] == ('buf',) and off == ('off',) and state['advanced'] is None:
+                        return ('unpacked', f_)
+                    return None
+                if len(rest) == 1 and rest[0] == ('slice', f_) and state['advanced'] is None:
+                    return ('unpacked', f_)
+            return None
+        if isinstance(e, ast.Subscript) and isinstance(e.slice, ast.Slice) and e.slice.step is None and ev(e.value) == ('buf',):
+            lo, hi = e.slice.lower, e.slice.upper
+            if lo is not None and hi is not None and ev(lo) == ('off',) and isinstance(hi, ast.BinOp) and isinstance(hi.op, ast.Add):
+                for a_, b_ in ((hi.left, hi.right), (hi.right, hi.left)):
+                    sz = ev(b_)
+                    if ev(a_) == ('off',) and sz is not None and sz[0] == 'size':
+                        return ('slice', sz[1])
+            return None
+        return None
+
+    for st in body_wo_doc(fn):
+        if isinstance(st, ast.Assign) and len(st.targets) == 1 and isinstance(st.targets[0], ast.Name):
+            v = ev(st.value)
+            if v is None:
+                return None
+            if v[0] == 'unpacked':
+                if state['read'] is not None:
+                    return None
+                state['read'] = v[1]
+            env[st.targets[0].id] = v
+        elif isinstance(st, ast.AugAssign) and isinstance(st.op, ast.Add) and is_self_attr(st.target, off_attr):
+            v = ev(st.value)
+            if v is None or v[0] != 'size' or state['advanced'] is not None:
+                return None
+            state['advanced'] = v[1]
+        elif isinstance(st, ast.Return) and st.value is not None:
+            v = ev(st.value)
+            if v is None or v[0] != 'unpacked':
+                return None
+            if state['read'] is None:
+                state['read'] = v[1]   # `return S.unpack_from(...)` would skip the advance: rejected below
+            state['ret'] = v[1]
+            break
+        else:
+            return None
+    f_ = state['read']
+    if f_ is None or state['advanced'] != f_ or state['ret'] != f_:
+        return None
+    out = dict(order=f_[1], count=f_[2], code=f_[3], params=params, line=fn.lineno, cls=c.name)
+    _PACKED_CACHE[key] = out
+    return out
 
 
 class Extractor:
@@ -404,6 +577,18 @@ class Extractor:
                 if len(call.args) != 1 or call.keywords:
                     self.fail(call, f'{attr} with unexpected arguments')
                 return ('bytes', dict(arg=call.args[0], view=attr == 'read_bytes_view', node=call, bind=bind))
+            sm = packed_read_summary(self.m, attr)
+            if sm is not None:
+                # a bulk read defined on the stream class (count values of one struct code, back to back): kept as one item; the rule
+                # compares it with `count` repetitions of the element's own primitive
+                actual: Dict[str, ast.AST] = {}
+                if any(isinstance(a, ast.Starred) for a in call.args) or len(call.args) > len(sm['params']) or any(k.arg not in sm['params'] for k in call.keywords):
+                    self.fail(call, f'{attr} with unexpected arguments')
+                for prm, a in list(zip(sm['params'], call.args)) + [(k.arg, k.value) for k in call.keywords]:
+                    actual[prm] = a
+                if sm['count'] not in actual or sm['code'] not in actual:
+                    self.fail(call, f'{attr}: count / code argument missing')
+                return ('packed', dict(count=actual[sm['count']], code=actual[sm['code']], order=sm['order'], op=attr, node=call, bind=bind))
         self.fail(call, f'unknown byte-stream operation `{attr}` on the {"writer" if self.side == "w" else "reader"} side')
         return ('raise',)
 
@@ -511,7 +696,7 @@ class Extractor:
 def flatten_prims(prog: Sequence[tuple]) -> List[tuple]:
     out = []
     for it in prog:
-        if it[0] in ('prim', 'bytes', 'rec', 'missing_w'):
+        if it[0] in ('prim', 'bytes', 'rec', 'missing_w', 'packed'):
             out.append(it)
         elif it[0] == 'loop':
             out += flatten_prims(it[2])
@@ -540,6 +725,8 @@ def show_program(prog: Sequence[tuple]) -> str:
             parts.append('MISSINGBYTES(' + (pf.nsrc(it[1]['n']) if it[1].get('n') is not None else '…') + ')')
         elif k == 'raise':
             parts.append('RAISE')
+        elif k == 'packed':
+            parts.append(f'PACKED({pf.nsrc(it[1]["count"])[:30]} x {pf.nsrc(it[1]["code"])[:30]})')
     return ' '.join(parts)
 
 
@@ -1296,7 +1483,8 @@ def inline_stream_methods(m: pf.Module, fn: pf.FuncDef, stream: str, side: str) 
     c = stream_class(m, side)
     if c is None:
         return fn, []
-    helpers = {n: f for n, f in methods(c).items() if n not in PRIMITIVE_STREAM_OPS and not n.startswith('__') and isinstance(f, ast.FunctionDef)}
+    helpers = {n: f for n, f in methods(c).items() if n not in PRIMITIVE_STREAM_OPS and not n.startswith('__') and isinstance(f, ast.FunctionDef)
+               and not (side == 'r' and packed_read_summary(m, n) is not None)}   # bulk reads are summarised (one 'packed' item), not inlined
     used = {n.func.attr for n in ast.walk(fn) if isinstance(n, ast.Call) and isinstance(n.func, ast.Attribute) and isinstance(n.func.value, ast.Name)
             and n.func.value.id == stream and n.func.attr in helpers}
     if not used:
@@ -1343,6 +1531,16 @@ class _Key:
 
     def __hash__(self):
         return hash(('key', self.k))
+
+
+MAP_BASE = 1000  # slot numbers >= MAP_BASE: the (k - MAP_BASE)-th entry of a Mapping value in the value's OWN iteration order
+
+
+class _MapKey(_Key):
+    """key of the p-th entry of `value.keys()` / `value.items()`: the mapping's own order, which the type does not determine"""
+
+    def __init__(self, p: int):
+        super().__init__(MAP_BASE + p)
 
 
 class _TypeC:
@@ -1419,6 +1617,7 @@ class MissingBitsEval:
             self.env[value] = _Obj('value')
         self.emitted: List[Tuple[SymInt, ast.AST]] = []
         self.size_sources: Set[str] = set()
+        self.map_views: List[str] = []   # source text of the views of a Mapping value that were iterated (value.values(), ...)
         self.steps = 0
 
     def fail(self, node: Optional[ast.AST], msg: str):
@@ -1618,6 +1817,22 @@ class MissingBitsEval:
                         raise ModelledError(f'write_byte({v}) for n = {self.n}: struct.error')
                     self.emitted.append((SymInt.of(v), e))
                 return None
+            if isinstance(base, _Obj) and base.kind == 'value':
+                # views of a Mapping value (only a mapping has them): n entries - a well-typed struct value has the declared key set - in
+                # the value's own iteration order, which nothing ties to the declared field order
+                if f.attr in ('values', 'keys', 'items') and not e.args:
+                    self.size_sources.add('mapping')
+                    if pf.nsrc(e) not in self.map_views:
+                        self.map_views.append(pf.nsrc(e))
+                    if f.attr == 'values':
+                        return [_Elem(MAP_BASE + p) for p in range(self.n)]
+                    if f.attr == 'keys':
+                        return [_MapKey(p) for p in range(self.n)]
+                    return [(_MapKey(p), _Elem(MAP_BASE + p)) for p in range(self.n)]
+                if f.attr == 'get' and len(e.args) == 1:
+                    k_ = self.ev(e.args[0])
+                    if isinstance(k_, _Key):
+                        return _Elem(k_.k)   # an absent key yields None, which the missingness test treats like a missing field
             if isinstance(base, _Obj) and base.kind in ('self', 'fieldtypes'):
                 if f.attr == 'keys' and not e.args:
                     self.size_sources.add('fields')
@@ -1839,8 +2054,9 @@ def expected_missing_bytes(n: int) -> List[Dict[int, frozenset]]:
     return [{j: frozenset([8 * b + j]) for j in range(8) if 8 * b + j < n} for b in range((n + 7) // 8)]
 
 
-def eval_missing_region(info: dict, n: int) -> Tuple[List[Dict[int, frozenset]], Set[str]]:
-    """Symbolic bytes written by the missing-bit region `info` (from Extractor) for a container with n slots."""
+def eval_missing_region(info: dict, n: int, views: Optional[List[str]] = None) -> Tuple[List[Dict[int, frozenset]], Set[str]]:
+    """Symbolic bytes written by the missing-bit region `info` (from Extractor) for a container with n slots.
+    `views` (optional) collects the source text of the Mapping views of the value the region iterated."""
     ev = MissingBitsEval(info['where'], info['selfname'], info['stream'], info['value'], n)
     try:
         ev.run(list(info['before']) + list(info['stmts']))
@@ -1848,19 +2064,42 @@ def eval_missing_region(info: dict, n: int) -> Tuple[List[Dict[int, frozenset]],
         pass
     except (_Break, _Continue):
         raise AnalysisError(f'{info["where"]}: break/continue outside a loop in the missing-bit region')
+    if views is not None:
+        views += [v for v in ev.map_views if v not in views]
     return [s.norm() for s, _ in ev.emitted], ev.size_sources
+
+
+def _declared_order(got: List[Dict[int, frozenset]]) -> Tuple[List[Dict[int, frozenset]], bool]:
+    """Bytes with every own-iteration-order slot of a Mapping value renamed to the declared slot of the same number (what the bytes
+    would be IF the value listed its fields in declared order), and whether such slots occur at all."""
+    used = False
+    out: List[Dict[int, frozenset]] = []
+    for g in got:
+        d: Dict[int, frozenset] = {}
+        for bit, syms in g.items():
+            if any(x >= MAP_BASE for x in syms):
+                used = True
+            d[bit] = frozenset((x - MAP_BASE if x >= MAP_BASE else x) for x in syms)
+        out.append(d)
+    return out, used
 
 
 def check_missing_region(info: dict, max_n: int = MAX_N) -> Tuple[Optional[str], Set[str]]:
     """None when the region writes exactly the engine's missing bytes for every n <= max_n and every missingness vector; otherwise a
     message with a concrete counter-example.  Also returns which size the region ranges over ('value' = len(value), 'fields')."""
     sources: Set[str] = set()
+    views: List[str] = []
+    own_order = False
     for n in range(0, max_n + 1):
         try:
-            got, src = eval_missing_region(info, n)
+            got, src = eval_missing_region(info, n, views)
         except ModelledError as ex:
             return f'for a container with n = {n} slots the missing-bit code raises: {ex}', sources
         sources |= src
+        # slots taken from a Mapping value's own iteration order: first decide the packing as if that order were the declared one
+        # (any other defect is reported as such); the order itself is decided after the loop
+        got, used = _declared_order(got)
+        own_order = own_order or (used and n >= 2)
         want = expected_missing_bytes(n)
         if len(got) != len(want):
             return (f'for n = {n} slots {len(got)} missing byte(s) are written, the layout has ceil(n/8) = {len(want)}: every later field is read from the wrong offset'), sources
@@ -1886,6 +2125,12 @@ def check_missing_region(info: dict, max_n: int = MAX_N) -> Tuple[Optional[str],
                 lost = sorted(ws - gs)
                 return (f'n = {n}, slot {lost[0]} missing: bit {bit} of byte {b} is not set' + (f' (it is set for slot(s) {sorted(gs)} instead)' if gs else '')
                         + ': the reader decodes a value for the missing slot and every later value is read from the wrong offset'), sources
+    if own_order:
+        v = ', '.join(f'`{x}`' for x in views) or 'a view of the value'
+        return (f'bit k of the missing bytes is computed from the k-th entry of {v}, i.e. in the iteration order of the value itself, but bit k belongs to the k-th DECLARED '
+                f'field (the payload loop, the decoder and the engine\'s EBaseStruct all go by the type); a well-typed struct value is any Mapping with the declared keys, '
+                f'in any order: for struct{{f0, f1}} the value {{f1: None, f0: x}} yields header bits 0b01 (f0 marked missing, f1 present) while the payload holds f0 only - '
+                f'the decoder skips f0 and decodes f1 from f0\'s bytes'), sources
     return None, sources
 
 
